@@ -170,6 +170,16 @@ func c07Exec(r *explore.Run, u c07Unit) c07Result {
 				}
 			}
 		}
+	case "standing-accusation":
+		// the Byzantine keyper deals a wrong evaluation to one honest keyper (free
+		// choice which) and answers the accusation with a wrong apology, so the
+		// accusation stands; every further dimension of its script costs a deviation
+		b := u.Byz[0]
+		st := chooseStrategy(r, b, honest, 1)
+		v := honest[r.ChooseFree(len(honest), fmt.Sprintf("byz%d.victim", b))]
+		st.Evals[v] = shmx.EvalWrong
+		st.Apology[v] = []int{shmx.ApologyWrong, shmx.ApologyOpposite}[r.ChooseFree(2, fmt.Sprintf("byz%d.answer-to-the-accusation{wrong apology,none}", b))]
+		spec.Byz[b] = st
 	case "delays", "delays-bounded":
 		cost := 0
 		if u.Mode == "delays-bounded" {
@@ -256,6 +266,27 @@ func c07Units(thorough bool) []c07Unit {
 		for pi := 1; pi < nperm; pi++ {
 			us = append(us, c07Unit{Name: fmt.Sprintf("n=3 t=2, all honest, block %d step order %d", h, pi), N: 3, T: 2, L: L, Mode: "delays-bounded", Bound: 0,
 				Sched: shmx.Schedule{Order: map[int64]int{h: pi}}})
+		}
+	}
+	// an accusation that stands (wrong evaluation, wrong apology) while one honest keyper
+	// lags: it pauses 1..2 blocks at the start of a phase and then handles the blocks it
+	// missed in one sync round
+	for b := 0; b < 3; b++ {
+		for _, h := range honestOf(3, []int{b}) {
+			for p := 0; p < 3; p++ {
+				// in the accusing and apologizing phases a keyper that has nothing to send
+				// may lag by a whole phase and catch up in one sync round
+				maxd := int(L - 3)
+				if p > 0 {
+					maxd = int(L)
+				}
+				for d := 1; d <= maxd; d++ {
+					var dd [3]int
+					dd[p] = d
+					us = append(us, c07Unit{Name: fmt.Sprintf("n=3 t=2, keyper %d Byzantine with a standing accusation, keyper %d pauses %d at phase %d", b, h, d, p+1), N: 3, T: 2, L: L, Byz: []int{b}, Mode: "standing-accusation", Bound: 0,
+						Sched: shmx.Schedule{Delay: map[int][3]int{h: dd}}})
+				}
+			}
 		}
 	}
 	if !thorough {
@@ -349,7 +380,7 @@ func c07() *report.Check {
 	return &report.Check{
 		Level: "model_checking",
 		Rule: "stateless deviation-bounded DFS over complete key generations through fakeshm (real app.ShutterApp, real smobserver.SyncAppWithDB/ShuttermintState, real KeyperCore.handleOnChainChanges, real fx.SendShutterMessages + RPCMessageSender per honest keyper on minipg; scripted Byzantine signers). " +
-			"quick: n=3,t=2, every Byzantine index, all scripts within 2 deviations from honest behaviour x default schedule; all-honest runs with every pause placement in {0,1} per (keyper, phase) (2^9) and, at the default placement, every single step-order deviation (any of the 5 non-identity orders in any one block). " +
+			"quick: n=3,t=2, every Byzantine index, all scripts within 2 deviations from honest behaviour x default schedule; a standing accusation (wrong evaluation to either honest keyper, answered with a wrong apology or not at all) x every single pause of either honest keyper (1..2 blocks at the dealing phase, 1..5 at the accusing and apologizing phases); all-honest runs with every pause placement in {0,1} per (keyper, phase) (2^9) and, at the default placement, every single step-order deviation (any of the 5 non-identity orders in any one block). " +
 			"thorough adds: the full script product (commitment 5 x eval 3^2 x false accusation 3 x apology 3^2 x dealing order 2 x timing 2^4, duplicates with an unsent message class skipped) per Byzantine index x default schedule; scripts within 2 deviations x every single schedule deviation (pause 1..2 of one honest keyper at one phase; any of the 5 non-identity step orders in any one block); all-honest pauses 0..2 within 2 deviations, phase length 4; n=4 (t=3 one Byzantine, t=2 two Byzantine) within 2 deviations. " +
 			"Oracle per eon: equal PublicKey/PublicKeyShares among successful honest keypers, g2^secret == own public share, every t-subset interpolates to a key passing VerifyEpochSecretKey and decrypting a message encrypted to the eon key, DKG result votes on chain == rows, published eon key == result; all-honest in-phase => all succeed. Classes = who succeeded / failed with which error / which dealers are in the key (qualified set).",
 		Assumptions: []string{
